@@ -14,7 +14,7 @@ from ..core.framework import Ctx, b2s
 
 SPEC = {
     "modules": ["HC.Props.C02"],
-    "extracted": ["Guards", "Consts"],
+    "extracted": ["Guards", "Consts", "ReqGlue"],
     "technique": "Lean 4 transducer theorem (events handed to the protocol = specification of the app's messages, for every status/header list/chunking, by induction over chunks) + suppress_body and trailers gates + head-composition laws; tied by end-to-end runs on both workers parsed by independent h11/h2 clients",
     "level_text": "Proved in Lean for every final status, every header list that validates and every chunking (any number of chunks, empty ones included): the protocol layer is given exactly one response head with the application's headers in order, the non-empty chunks in order (none when HEAD / 1xx / 204 / 304 — the extracted suppress_body, characterised), then end-of-body, one access record and stream-closed; trailers only on HTTP/2+ with te: trailers; the HTTP/1 head is app headers ++ server headers (date/server/alt-svc only) ++ connection: close at the request maximum; the HTTP/2 head is :status ++ app ++ server headers.  End-to-end on every run: scripted applications (status x headers x chunking incl. chunks larger than the 16 KiB frame and 64 KiB window) on HTTP/1.0, 1.1 and 2, both workers, three client paces; independent h11/h2 client parsers recover status, headers, body and end-of-message, compared with the monitor and with the Lean-predicted view.",
     "level_note": "Trusted: Lean kernel; stream model HC/Stream/Http.lean and head functions HC/Proto/Heads.lean (tied by differential runs); legal HTTP/1 framing and HTTP/2 framing/flow control are h11's and h2's (library behaviour, observed only through the independent client parsers, which raise on violations); 1xx as a final status is outside the quantifier.",
